@@ -167,6 +167,112 @@ def order(body, which):
     return [c for _, c in hits]
 
 
+def block_at(src, m):
+    """the `{...}` block whose opening brace ends the regex match m: (inner text, index after the closing brace)"""
+    if not m:
+        return None, -1
+    i = m.end() - 1
+    j = match_brace(src, i)
+    if j < 0:
+        return None, -1
+    return src[i + 1:j], j + 1
+
+
+def top_level(block):
+    """the statements directly inside a block: nested `{...}` blocks removed"""
+    out, depth = [], 0
+    for ch in block:
+        if ch == "{":
+            depth += 1
+        elif ch == "}":
+            depth -= 1
+        elif depth == 0:
+            out.append(ch)
+    return "".join(out)
+
+
+RESET = r"lock_invalid_since\s*=\s*None\s*;"
+
+
+def has_reset(block):
+    return block is not None and re.search(RESET, top_level(block)) is not None
+
+
+def else_block(src, after):
+    m = re.compile(r"\s*else\s*\{").match(src, after)
+    return block_at(src, m)
+
+
+def grace_table(body, which):
+    """the `lock_invalid_since = None;` statements of a recovery loop, by arm, + the grace comparison.
+    Returns (dict, problems)."""
+    probs = []
+    t = {"meta": False, "readable": False, "absent": False, "vanished": False, "cleaned": False, "grace_ms": 0, "strict": False}
+    if body is None:
+        return t, ["body"]
+    mm = re.search(r"match\s+(?:ripd|crate)::read_authority_lock_record\([^)]*\)\s*\{", body)
+    mblock, _ = block_at(body, mm)
+    if mblock is None:
+        return t, ["match read_authority_lock_record"]
+    arm_r, _ = block_at(mblock, re.search(r"Ok\(Some\(lock\)\)\s*=>\s*\{", mblock))
+    arm_v, _ = block_at(mblock, re.search(r"Ok\(None\)\s*=>\s*\{", mblock))
+    arm_e, _ = block_at(mblock, re.search(r"Err\((?:lock_)?err\)\s*=>\s*\{", mblock))
+    for name, arm in (("Ok(Some(lock)) arm", arm_r), ("Ok(None) arm", arm_v), ("Err arm", arm_e)):
+        if arm is None:
+            probs.append(name)
+    t["readable"] = has_reset(arm_r)
+    t["vanished"] = has_reset(arm_v)
+    recognised = int(t["readable"]) + int(t["vanished"])
+    if arm_e is not None:
+        cm = re.search(r"if\s+cleaned\s*\{", arm_e)
+        cblock, _ = block_at(arm_e, cm)
+        # the reset must sit in the `if cleaned` block that follows the corrupt cleanup call
+        t["cleaned"] = has_reset(cblock) and cm is not None and "try_cleanup_corrupt_lock_file(" in arm_e[:cm.start()]
+        recognised += int(t["cleaned"])
+        gm = re.search(r"since\.elapsed\(\)\s*(>=|>)\s*(?:std::time::)?Duration::from_(secs|millis)\(\s*(\d+)\s*\)", arm_e)
+        if gm:
+            t["strict"] = gm.group(1) == ">"
+            t["grace_ms"] = int(gm.group(3)) * (1000 if gm.group(2) == "secs" else 1)
+        else:
+            probs.append("grace comparison")
+    if which == "client":
+        ma = re.search(r"if\s+let\s+Some\(meta\)\s*=\s*meta\s*\{", body)
+        a_block, a_end = block_at(body, ma)
+        if a_block is None:
+            probs.append("meta arm")
+        else:
+            # the reset of the meta arm must come before the ping (the arm's first statement in the source)
+            tl = top_level(a_block)
+            rm = re.search(RESET, tl)
+            t["meta"] = rm is not None and "ping(" not in tl[:rm.start()]
+            recognised += int(t["meta"])
+            b_block, _ = else_block(body, a_end)
+            if b_block is None:
+                probs.append("no-meta arm")
+            else:
+                mc = re.search(r"if\s+lock_path\.exists\(\)\s*\{", b_block)
+                c_block, c_end = block_at(b_block, mc)
+                d_block, _ = else_block(b_block, c_end) if c_block is not None else (None, -1)
+                if d_block is None:
+                    probs.append("no-lock arm")
+                t["absent"] = has_reset(d_block)
+                recognised += int(t["absent"])
+    else:
+        # the server reads the lock without an exists() test: Ok(None) is "absent" and "vanished" alike
+        t["absent"] = t["vanished"]
+    # every assignment to the variable must be one of the recognised resets (besides the declaration and get_or_insert)
+    total = len(re.findall(r"lock_invalid_since\s*=[^=]", body))   # (the declaration reads `lock_invalid_since: Option<..> = None`)
+    if total != recognised:
+        probs.append("unrecognised assignment to lock_invalid_since (%d found, %d recognised)" % (total, recognised))
+    return t, probs
+
+
+def coq_table(t):
+    b = lambda x: "true" if x else "false"
+    return ("{| g_reset_meta := %s; g_reset_readable := %s; g_reset_absent := %s; g_reset_vanished := %s; g_reset_cleaned := %s; g_grace_ms := %d; g_strict := %s |}"
+            % (b(t["meta"]), b(t["readable"]), b(t["absent"]), b(t["vanished"]), b(t["cleaned"]), t["grace_ms"], b(t["strict"])))
+
+
 def consts(src):
     return dict(re.findall(r'const\s+([A-Z_]+)\s*:\s*&str\s*=\s*"([^"]*)"\s*;', src))
 
@@ -233,10 +339,13 @@ def main():
     client_pat = contains_literal(bodies["client"], "err")
     strings = {"lock_err": lock_err, "server_pat": server_pat, "client_pat": client_pat}
     missing = [k for k, v in bodies.items() if v is None] + [k for k, v in strings.items() if v is None]
+    client_grace, cprobs = grace_table(bodies["client"], "client")
+    server_grace, sprobs = grace_table(bodies["server"], "server")
+    missing += ["client grace table: " + x for x in cprobs] + ["server grace table: " + x for x in sprobs]
     lines = [
         "(* GENERATED by tools/gen/auth_steps.py from crates/ripd/src/{local_authority,server}.rs and",
         "   crates/rip-cli/src/local_authority.rs on every ./check run -- do not edit.  A committed copy serves as seed only. *)",
-        "From RipV Require Import Base.Prelude Model.Authority Model.AuthoritySteps.",
+        "From RipV Require Import Base.Prelude Model.Authority Model.AuthoritySteps Model.AuthorityGrace.",
         "",
         "Definition gen_auth_found : bool := %s.%s" % ("false" if missing else "true", ("   (* not found: %s *)" % ", ".join(missing)) if missing else ""),
     ]
@@ -264,6 +373,19 @@ def main():
         "Lemma gen_serve_keeps_guard : lN_eqb (as_serve gen_auth_steps) exp_serve = true.",
         "Proof. vm_compute. reflexivity. Qed.",
         "Lemma gen_auth_steps_ok : auth_steps_wf gen_auth_steps = true.",
+        "Proof. vm_compute. reflexivity. Qed.",
+        "",
+        "(* the corrupt-lock grace timer: which arms of each loop carry `lock_invalid_since = None;` (top-level statement of the",
+        "   arm), the reset after a successful corrupt cleanup, and the comparison `since.elapsed() > Duration::from_secs(1)` *)",
+        "Definition gen_client_grace : gtable := %s." % coq_table(client_grace),
+        "Definition gen_server_grace : gtable := %s." % coq_table(server_grace),
+        "(* c18_client_grace_resets / c18_timer_fires_only_after_grace are proved for every table with these resets *)",
+        "Lemma gen_client_grace_ok : table_wf_client gen_client_grace = true.",
+        "Proof. vm_compute. reflexivity. Qed.",
+        "Lemma gen_server_grace_ok : table_wf_server gen_server_grace = true.",
+        "Proof. vm_compute. reflexivity. Qed.",
+        "(* the table the correspondence cases of the real client loop are evaluated with *)",
+        "Lemma gen_client_grace_is_full : gen_client_grace = full_table.",
         "Proof. vm_compute. reflexivity. Qed.",
         "",
     ]
